@@ -120,7 +120,7 @@ func c06(tier string) {
 	ctx.Rule = "profiles with 3-5 quantified constraints under one propertyConstraints mapping (also inside and/or/not), several validations per level and many prefixes, plus repository fixture profiles with their data and documents with several source-information nodes; per (profile, data): digests of R in-process repetitions, of the same call after all other pairs of the worker ran in between, of K fresh processes (each in another working directory, time zone and locale), of 16 concurrent goroutines in a fresh process, and per profile of K fresh `acv generate` processes; the number of distinct digests per input must be 1; " +
 		"non-trivial & distinct = (profile, data) pair whose report has results or whose profile has >=3 keys in one mapping"
 	ctx.Assumptions = []string{"detection of an order-dependent generator is probabilistic per run: with >=3 keys in a Go map one repetition changes the order with probability >=1/2; R repetitions x K processes per input are reported as counters"}
-	n := ctx.N(64, 640)
+	n := ctx.N(64, 320)
 	R := ctx.N(12, 40)
 	K := ctx.N(3, 12)
 	if !ctx.IsShard() {
